@@ -60,6 +60,7 @@ pub struct PersonalAccessTokenState {
 #[derive(Debug)]
 pub struct UserState {
     pub id: u32,
+    pub created_at: IggyTimestamp,
     pub username: String,
     pub password_hash: String,
     pub status: UserStatus,
@@ -285,6 +286,7 @@ impl SystemState {
                     current_user_id += 1;
                     let user = UserState {
                         id: current_user_id,
+                        created_at: entry.timestamp,
                         username: command.username,
                         password_hash: command.password, // This is already hashed
                         status: command.status,
